@@ -2,6 +2,7 @@ import OsacaVerif.Model.LCD
 import OsacaVerif.Spec.Deps
 import OsacaVerif.Gen.Consts
 import OsacaVerif.Lemmas.LCDPaths
+import OsacaVerif.Lemmas.LCDPost
 /-
   C05 — Loop-carried dependencies are exactly the cross-iteration dependency cycles.
   (Model: `LCD.lcd`; independent oracle: `Spec.cycles`.)
@@ -116,6 +117,68 @@ example :
     IsSimplePath es 1 4 [(1, 2), (3, 5)] ∧
     ¬ IsSimplePath es 1 4 [(1, 2), (3, 7), (1, 1), (2, 3)] ∧
     pathsFrom es 4 5 1 [1] = [[(1, 1), (2, 3)], [(1, 2), (3, 5)]] := by
+  decide +kernel
+
+/-! ### the post-processing: members, latency, de-duplication -/
+
+/-- **entry_latency** (∀ offsets, ∀ path lists): every reported entry comes from one of the found
+    paths `p`; its `(lines, lats)` are that path's normal form (`normPath`: edges mapped back with
+    `s ≥ off ↦ s − off`, sorted); hence its `lines` are exactly the path's source vertices mapped
+    back (a permutation of them), listed ascending, its `lats` are the edge weights in that order and
+    its `latency` is the sum of the edge weights along the path (summed in ℚ, order irrelevant). -/
+theorem entry_latency (off : Nat) (paths : List (List (Nat × Rat))) (e : Entry) (he : e ∈ post off paths) :
+    ∃ p ∈ paths, e.lines = (normPath off p).map (·.1) ∧ e.lats = (normPath off p).map (·.2) ∧
+      e.latency = (p.map (·.2)).sum ∧ e.latency = e.lats.sum ∧
+      e.lines.Perm ((verts p).map (backLine off)) ∧ e.lines.Pairwise (· ≤ ·) ∧
+      (e.lines.zip e.lats).Perm (p.map (back off)) := by
+  rw [post_eq, List.mem_map] at he
+  obtain ⟨n, hn, rfl⟩ := he
+  obtain ⟨hn, _⟩ := (mem_dedup [] _ n).mp hn
+  obtain ⟨p, hp, rfl⟩ := List.mem_map.mp hn
+  have hperm : (normPath off p).Perm (p.map (back off)) := sortPairs_perm' _
+  refine ⟨p, hp, rfl, rfl, ?_, rfl, ?_, le2_lines (sortPairs_sorted _), ?_⟩
+  · have := sum_perm (hperm.map (·.2))
+    simpa [mkEntry, back, Function.comp_def] using this
+  · have := hperm.map (·.1)
+    simpa [mkEntry, back, verts, Function.comp_def] using this
+  · simpa [mkEntry, zip_fst_snd] using hperm
+
+/-- **post_dedup**: no two reported entries have the same (lines, latencies) lists — each normal
+    form is reported at most once. -/
+theorem post_dedup (off : Nat) (paths : List (List (Nat × Rat))) :
+    (post off paths).Pairwise (fun a b => ¬ (a.lines = b.lines ∧ a.lats = b.lats)) := by
+  rw [post_eq, List.pairwise_map]
+  refine (dedup_nodup [] _).imp ?_
+  intro a b hab h
+  exact hab (pairs_ext h.1 h.2)
+
+/-- **post_represents**: every found path is represented — there is an entry carrying its normal
+    form — and by exactly one entry (`countP … = 1`). -/
+theorem post_represents (off : Nat) (paths : List (List (Nat × Rat))) (p : List (Nat × Rat)) (hp : p ∈ paths) :
+    (∃ e ∈ post off paths, e.lines = (normPath off p).map (·.1) ∧ e.lats = (normPath off p).map (·.2)) ∧
+    (post off paths).countP (fun e => decide (e.lines = (normPath off p).map (·.1) ∧
+      e.lats = (normPath off p).map (·.2))) = 1 := by
+  have hmem : normPath off p ∈ post.dedup [] (paths.map (normPath off)) :=
+    (mem_dedup [] _ _).mpr ⟨List.mem_map.mpr ⟨p, hp, rfl⟩, by simp⟩
+  refine ⟨⟨mkEntry (normPath off p), by rw [post_eq]; exact List.mem_map.mpr ⟨_, hmem, rfl⟩, rfl, rfl⟩, ?_⟩
+  rw [post_eq, List.countP_map]
+  have hc := (dedup_nodup [] (paths.map (normPath off))).count (a := normPath off p)
+  rw [if_pos hmem, List.count_eq_countP] at hc
+  rw [← hc]
+  apply List.countP_congr
+  intro x _
+  simp only [Function.comp_apply]
+  rw [decide_eq_true_iff, beq_iff_eq]
+  simp only [mkEntry]
+  constructor
+  · rintro ⟨h1, h2⟩; exact pairs_ext h1 h2
+  · rintro rfl; exact ⟨rfl, rfl⟩
+
+-- non-vacuity: two rotations of the same cycle (found from line 3 and from line 5) and a second
+-- cycle: mapped back and sorted the first two coincide and are reported once, latency 1 + 4 = 5
+example :
+    (post 1000 [[(3, 1), (5, 4)], [(5, 4), (1003, 1)], [(4, 2)]]).map (fun e => (e.lines, e.lats, e.latency)) =
+      [([3, 5], [1, 4], 5), ([4], [2], 2)] := by
   decide +kernel
 
 -- non-vacuity: a two-instruction accumulation loop has exactly one loop-carried cycle
